@@ -51,6 +51,13 @@ def gen_cases_for(seed_, n):
                     ks = rng.sample(keys, min(len(keys), rng.randint(1, 3)))
                     pats.append("|".join(re.escape(k) for k in ks))
                 opts["dkr"] = pats
+                if rng.random() < 0.3:
+                    # library only: compiled patterns carry flags; keys that match only because of the flag
+                    opts["dkr_flags"] = rng.choice(["i", "x", "ix", "ia"])
+                    if "i" in opts["dkr_flags"]:
+                        ks = rng.sample(keys, min(len(keys), rng.randint(1, 3)))
+                        opts["dkr"] = [p.upper() if p in (r"k\d+", r"k\d", r"k1\d*|k2\d*") else p for p in pats] + ["|".join(re.escape(k.swapcase()) for k in ks)]
+                        opts["dkr"] = [p.replace("\\D", "\\d") for p in opts["dkr"]]
         cases.append({"i": i, "via": "library", "models": [["Root", samples]], "opts": opts})
     return cases
 
@@ -62,7 +69,9 @@ class DictOracle:
 
     def __init__(self, opts, orc):
         self.dkf = set(opts.get("dkf") or [])
-        self.regex = [re.compile(p) for p in (opts.get("dkr") or [])]
+        from ..driver import re_flags
+        # patterns without any layout characters, so re.X changes nothing about what they mean
+        self.regex = [re.compile(p, re_flags((opts.get("dkr_flags") or "").replace("x", ""))) for p in (opts.get("dkr") or [])]
         self.orc = orc
         self.pos = {}
         self.errs = []
